@@ -939,7 +939,9 @@ def classify(A, res):
 
 
 # preconditions on EXTRACTED functions that guard a panic in their body (unreachable!(), unchecked indexing, unwrap)
-PANIC_REQ = {"nocustom", "len", "plain", "label", "keylen", "derive_ok"}
+# (`derive_ok` - key derivation does not exhaust its 256 counters - is a negligible-probability exclusion stated at fixed tape offsets, not a
+#  panic guard in this sense: a change that merely moves the offsets must not read as "may panic")
+PANIC_REQ = {"nocustom", "len", "plain", "label", "keylen"}
 
 
 def is_panic_class(A, msg, spans):
